@@ -80,6 +80,16 @@ def check(run):
             sgn = (-1.0) ** (np.add.outer(np.arange(-ell, ell + 1), np.arange(-ell, ell + 1)) % 2)
             if report("conj-symmetry", ell, float(np.max(np.abs(B[ell] - sgn * np.conj(B[ell][::-1, ::-1])))), inp, lab):
                 break
+    # the laws must not depend on how calls are interleaved or on which workspace served them
+    ws = w.new_workspace()
+    for (la, Ra), (lb, Rb) in zip(rot[:-1:2], rot[1::2]):
+        w.D(quaternionic.array(Ra))
+        Bb = blocks(w, w.D(quaternionic.array(Rb), workspace=ws))
+        Bi = blocks(w, w.D(quaternionic.array((Rb[0], -Rb[1], -Rb[2], -Rb[3]))))
+        for ell in range(0, L + 1, max(1, L // 12)):
+            run.gap_case("mixed-workspace-inverse", (Ra, Rb, ell), f"{la}->{lb}" if ell == 0 else None)
+            if report("inverse-dagger", ell, float(np.max(np.abs(Bi[ell] - Bb[ell].conj().T))), {"R": list(Rb), "previous_default_call": list(Ra), "workspace": "explicit then default"}, f"{la}->{lb}"):
+                break
     pairs = [(a, b) for a in rot for b in rot]
     rng.shuffle(pairs)
     pairs = pairs[:40 if quick else 400]
